@@ -9,7 +9,9 @@ CLAIMS = ("R1 each leaf predicate eval_range{,_i32,_f64,_str}, evaluated abstrac
           "R2 no statistic bound or literal passes through a lossy cast (i64->i32, i64->f64) on its way into a comparison; "
           "R3 every 'cannot tell' fall-through answers conservatively: true in row_group_might_match/check_comparison/check_*_stats, false in row_group_definitely_matches/definite_comparison; And->&&, Or->|| in both, Not -> !definitely; "
           "R5 the comparison helpers consult the column's logical type before using integer statistics (DECIMAL columns carry unscaled integers); "
-          "R4 definite_comparison's comparisons are dominated by the `null_count_opt() != Some(0) => false` refusal.")
+          "R4 definite_comparison's comparisons are dominated by the `null_count_opt() != Some(0) => false` refusal; "
+          "R6 'every row matches' has a single source of truth: the value returned by row_group_definitely_matches derives only from constants, its own recursive results and definite_comparison (the function R4 guards against NULL rows) - never from a negation or from the may-match side, which says nothing about NULL rows; "
+          "R7 pruning results are never shared between files through Split::file, a bare file name that is not unique across directories.")
 NOT_DECIDED = "that the statistics in a file are themselves correct; UTF-8 truncation of byte-array statistics by writers."
 
 P = "storage::row_group_pruning"
@@ -237,6 +239,43 @@ def run(F, R):
         if not ok:
             bad4.append(bb)
     R.check(not bad4, "C05.R4", "definite_comparison:null-guard", "a 'definitely matches' comparison is reachable without the zero-null-count refusal (a NULL row fails every comparison)", d.loc(bad4[0]) if bad4 else d.loc(), dict(comparison_blocks=len(set(cmp_blocks))))
+
+
+    # ---------------- R6 single source of truth for "every row matches"
+    R.rule("C05.R6", "K5 provenance", "row_group_definitely_matches' result derives only from constants, recursion and definite_comparison; no negation, no may-match call")
+    dm = F.fn(P + "::row_group_definitely_matches")
+    allowed = {dm.path, P + "::definite_comparison"}
+    seen, work, bad6, ncalls = set(), ["0"], [], 0
+    for sb in range(dm.n):
+        si = dm.switch_info(sb)
+        if si and si[0] == "bool" and si[1]:
+            work.append(si[1])     # short-circuit operands decide the result through control flow
+    defs = dm.defs()
+    while work:
+        pl = work.pop()
+        l = place_local(pl)
+        if l in seen:
+            continue
+        seen.add(l)
+        for bb, kind, payload in defs.get(l, []):
+            if kind == "call":
+                ncalls += 1
+                if payload.name not in allowed:
+                    bad6.append((bb, f"the result of {payload.name.rsplit('::', 1)[-1]}()"))
+            else:
+                dst, rv, line = payload
+                if rv[0] == "un" and rv[1] == "Not":
+                    bad6.append((bb, "a negation"))
+                    continue
+                for o_ in ([rv[1]] if rv[0] == "use" else [rv[2]] if rv[0] in ("ref", "cast", "un") else rv[2:4] if rv[0] == "bin" else []):
+                    if not isinstance(o_, dict):
+                        q = op_place(o_) if (len(o_) > 1 and o_[1] == ":") else o_
+                        if q:
+                            work.append(q)
+    R.floor("C05.R6", "calls feeding row_group_definitely_matches' result", ncalls, 7)
+    R.check(not bad6, "C05.R6", "definitely_matches:single-source", "'every row of the group matches' is derived from " + "; ".join(sorted({w for b_, w in bad6})) + ": a may-match answer (or its negation) says nothing about NULL rows, which fail every predicate - the row filter is dropped for a group that still holds non-matching rows", dm.loc(bad6[0][0]) if bad6 else dm.loc(), dict(result_calls=ncalls))
+    import splitid
+    splitid.run(F, R, "C05.R7")
 
 
 def _idx(lst, item):
